@@ -452,7 +452,16 @@ def _rand_exact_op(g, x, allow_fc=False, big=False):
     r = g.rng
     X = g.T(x)
     _, h, w, c = X.shape
-    choice = r.choice(["conv", "conv", "dw", "maxpool", "add", "mul", "sub", "relu", "conv1", "addc", "min", "concat", "split", "reshape_rt", "pad_conv", "tconv"])
+    choice = r.choice(["conv", "conv", "dw", "maxpool", "add", "mul", "sub", "relu", "conv1", "addc", "min", "concat", "split", "reshape_rt", "pad_conv", "tconv", "transpose"])
+    if choice == "transpose":
+        if X.dtype.name == "int16":
+            choice = "conv"
+        else:
+            y = x
+            if h >= w and w >= 2 and r.integers(0, 2):
+                y = g.pool(x, "maxpool", min(2, h, w), 1, PAD_VALID, kw=1) if h > 2 else x  # keeps W, trims H by one
+            t = g.transpose(y, [0, 2, 1, 3])  # height <-> width; wide inputs make the strided write reach far
+            return g.conv(t, int(r.choice([4, 8, 16])), 1, 1, PAD_SAME, int(r.choice([ACT_NONE, ACT_RELU])))
     if choice == "tconv" and (X.dtype.name == "int16" or h * w > 144):
         choice = "conv"
     act = int(r.choice([ACT_NONE, ACT_NONE, ACT_RELU, ACT_RELU6, ACT_RELU_N1_1]))
@@ -466,7 +475,10 @@ def _rand_exact_op(g, x, allow_fc=False, big=False):
         dil_w = dil
         if s == 1 and r.integers(0, 6) == 0 and (k - 1) * 2 + 1 <= min(h, w):
             dil, dil_w = (2, 1) if r.integers(0, 2) else (1, 2)
-        return g.conv(x, oc, k, s, pad, act, dil, per_channel=bool(r.integers(0, 4)), dil_w=dil_w)
+        kw_ = k
+        if k > 1 and r.integers(0, 4) == 0:
+            kw_ = int(r.choice([v for v in (1, 2, 3, 5) if v != k and (v - 1) * dil_w + 1 <= w] or [k]))
+        return g.conv(x, oc, k, s, pad, act, dil, per_channel=bool(r.integers(0, 4)), dil_w=dil_w, kw=kw_)
     if choice == "tconv":
         s = int(r.choice([1, 2, 2]))
         k = int(r.choice([1, 2, 3, 3, 4]))
@@ -553,6 +565,7 @@ def fam_exact_dag(seed):
     x = g.input([1, h, w, c])
     two_in = r.integers(0, 3) == 0
     pool = [x]
+    extra = []
     if two_in:
         pool.append(g.input([1, h, w, c]))
     for _ in range(int(r.integers(3, 8))):
@@ -576,12 +589,18 @@ def fam_exact_dag(seed):
         else:
             y = g.eltwise("add", src, src)  # duplicated inputs
         pool.append(y)
+        if r.integers(0, 5) == 0 and src not in g.net.inputs:
+            # the same feature map also feeds a RESHAPE that cannot be bypassed (its input has other consumers): the copy must see the layout it expects
+            S2 = g.T(src)
+            flat = g.reshape(src, [1, int(np.prod(S2.shape))])
+            extra.append(g.fc(flat, int(r.choice([4, 10, 16]))))
     consumed = set(i for o in g.net.ops for i in o.inputs)
     outs = [p for p in pool if p not in consumed and p not in g.net.inputs]
     if not outs:
         outs = [pool[-1]]
     if len(outs) > 3:
         outs = outs[:3]
+    outs += extra[:2]
     # make sure every input is used
     for i in g.net.inputs:
         if i not in consumed:
@@ -589,13 +608,15 @@ def fam_exact_dag(seed):
     return g.finish(outs, "exact-dag", "exact")
 
 
-APPROX_TAILS = ["avgpool_pad", "avgpool", "resize_bilinear", "resize_nearest", "logistic", "tanh", "leaky_relu", "hard_swish", "mean", "softmax"]
+APPROX_TAILS = ["avgpool_pad", "avgpool", "resize_bilinear", "resize_nearest", "logistic", "tanh", "leaky_relu", "hard_swish", "mean", "softmax", "concat_requant"]
 
 
 def fam_approx_tail(seed, tail=None):
     r = rng_for("approx-tail", seed)
     g = G(r, "int8" if r.integers(0, 4) else "uint8")
     tail = tail or APPROX_TAILS[seed % len(APPROX_TAILS)]
+    if tail == "concat_requant":
+        g.dtype = "uint8"
     if g.dtype == "uint8" and tail in ("hard_swish", "leaky_relu"):
         g.dtype = "int8"
     h, w, c = int(r.choice([4, 6, 8, 12])), int(r.choice([4, 6, 8, 12])), int(r.choice([4, 8, 16, 5]))
@@ -625,6 +646,14 @@ def fam_approx_tail(seed, tail=None):
             x = g.conv(x, int(r.choice([4, 8, 16])), int(r.choice([1, 3])) if min(h, w) >= 3 else 1, 1, PAD_SAME, int(r.choice([ACT_RELU, ACT_RELU6, ACT_RELU_N1_1])),
                        oscale=float(r.choice([0.05, 0.1, 0.02])))
         x = g.unary(tail, x)
+    elif tail == "concat_requant":
+        # CONCATENATION whose inputs carry other quantisation than the output (uint8 only in the reference): each input is copied with a rescale
+        y = g.conv(x, int(r.choice([4, 8, 16])), 1, 1, PAD_SAME, 0)
+        z = g.conv(x, int(r.choice([4, 8])), 1, 1, PAD_SAME, 0)
+        ax = 3 if r.integers(0, 3) else int(r.choice([1, 2]))
+        if ax != 3:
+            z = g.conv(x, g.T(y).shape[3], 1, 1, PAD_SAME, 0)
+        x = g.concat([y, z] if r.integers(0, 2) else [z, y], ax, same_q=False, oscale=g.rscale(0.01, 0.1), ozp=g.rzp())
     elif tail == "mean":
         x = g.mean(x, (1, 2), bool(r.integers(0, 2)))
     elif tail == "softmax":
@@ -660,7 +689,10 @@ def fam_stripe_stress(seed):
             dw_ = dil
             if s == 1 and r.integers(0, 3) == 0 and (k - 1) * 2 + 1 <= min(hh, ww):
                 dil, dw_ = (2, 1) if r.integers(0, 2) else (1, 2)  # different dilation along height and width
-            x = g.conv(x, int(r.choice([8, 16, 32])), k, s, pad, int(r.choice([0, 1, 3])), dil, dil_w=dw_)
+            kw_ = k
+            if r.integers(0, 3) == 0:
+                kw_ = int(r.choice([v for v in (1, 2, 3, 5) if v != k and (v - 1) * dw_ + 1 <= ww] or [k]))  # kernel taller than wide or wider than tall
+            x = g.conv(x, int(r.choice([8, 16, 32])), k, s, pad, int(r.choice([0, 1, 3])), dil, dil_w=dw_, kw=kw_)
     return g.finish([x], "stripe-stress", "exact")
 
 
